@@ -5,8 +5,9 @@ CONSTANTS
   Dev_h13 = FALSE
   Dev_t127 = FALSE
   Dev_mdict = FALSE
+  Dev_osrep = FALSE
   Dev_dparr = FALSE
-  DocIds = {"D1", "D2", "D3", "D4"}
+  DocIds = {"D1", "D2", "D3", "D4", "D5", "D6"}
   V2Lens = {40, 128}
   V4Stm = {"RC4", "AES128", "Identity"}
   V4Str = {"RC4", "AES128", "Identity"}
